@@ -224,13 +224,16 @@ Definition compile_perm (k : permkind) (bits : N) : lsexp :=
   end.
 
 (** format strings *)
+(** char::from_u32(val as u32).unwrap_or('0'): a surrogate code (0xD800..0xDFFF, constructible through
+    the public API only; the parser yields at most 0o777) is no scalar value and becomes '0' *)
+Definition scalar_or_zero (v : N) : N := if (55296 <=? v) && (v <=? 57343) then 48 else v.
 Definition special_piece (x : fspecial) : cres piece :=
   match x with
   | XAlarm => COk (PEsc 97) | XBackspace => COk (PEsc 98) | XCarriageReturn => COk (PEsc 114)
   | XForm => COk (PEsc 102) | XNewline => COk (PEsc 110) | XNull => COk (PEsc 48)
   | XTabHorizontal => COk (PEsc 116) | XTabVertical => COk (PEsc 118)
   | XBackslash => COk (PLit [92])
-  | XAscii v => COk (PLit (double_tilde [v]))
+  | XAscii v => COk (PLit (double_tilde [scalar_or_zero v]))
   | XClear => CErr UnsupportedFormat "Clear"
   end.
 
